@@ -2,6 +2,7 @@ package main
 
 import (
 	"bytes"
+	"context"
 	"crypto/hmac"
 	"crypto/md5"
 	"crypto/sha1"
@@ -14,6 +15,7 @@ import (
 	"hash"
 	"io"
 	"math/big"
+	"os"
 	"regexp"
 	"runtime"
 	"strconv"
@@ -153,9 +155,14 @@ type c15Reader struct {
 	fail   bool
 	style  int64
 	one    []byte
+	err    error
 }
 
 var errC15 = errors.New("c15: reader failed")
+
+// the error value a failing reader reports: its identity must not matter (only io.EOF ends a stream normally)
+var c15Errs = []error{errC15, io.ErrUnexpectedEOF, io.ErrClosedPipe, io.ErrShortWrite, io.ErrNoProgress, io.ErrShortBuffer,
+	fmt.Errorf("wrapped: %w", io.EOF), os.ErrDeadlineExceeded, context.Canceled}
 
 func (r *c15Reader) Read(p []byte) (int, error) {
 	if r.style == 2 { // one byte per call
@@ -165,13 +172,13 @@ func (r *c15Reader) Read(p []byte) (int, error) {
 			return 1, nil
 		}
 		if r.fail {
-			return 0, errC15
+			return 0, r.err
 		}
 		return 0, io.EOF
 	}
 	if r.i >= len(r.chunks) {
 		if r.fail {
-			return 0, errC15
+			return 0, r.err
 		}
 		return 0, io.EOF
 	}
@@ -182,8 +189,11 @@ func (r *c15Reader) Read(p []byte) (int, error) {
 		return n, nil
 	}
 	r.i++
-	if r.style == 1 && r.i == len(r.chunks) && !r.fail {
+	if (r.style == 1 || r.style == 3) && r.i == len(r.chunks) && !r.fail {
 		return n, io.EOF // data together with EOF
+	}
+	if r.style == 3 && r.i == len(r.chunks) && r.fail {
+		return n, r.err // data together with the error
 	}
 	return n, nil
 }
@@ -291,7 +301,7 @@ func c15Impl(in []int64) []int64 {
 		if len(data) > 0 {
 			chunks = append(chunks, append([]byte{}, data...))
 		}
-		r := &c15Reader{chunks: chunks, fail: b&1 != 0, style: b >> 1, one: append([]byte{}, d1...)}
+		r := &c15Reader{chunks: chunks, fail: b&1 != 0, style: (b >> 1) & 3, one: append([]byte{}, d1...), err: c15Errs[int(b>>3)%len(c15Errs)]}
 		var o []byte
 		var err error
 		switch a {
@@ -309,7 +319,7 @@ func c15Impl(in []int64) []int64 {
 			o, err = hashz.Sha512Stream(r)
 		}
 		if err != nil {
-			return []int64{1, B(err == errC15 && o == nil), 1, 1}
+			return []int64{1, B(err == r.err && o == nil), 1, 1}
 		}
 		return append(append([]int64{0}, PutList(Bytes(o))...), 1, 1, 1)
 	case 7:
@@ -586,13 +596,14 @@ func c15Gen(c *Ctx) {
 			for j := 0; j < r.Intn(8); j++ {
 				sizes = append(sizes, int64(1+r.Intn(70)))
 			}
-			b := int64(r.Intn(3)) << 1
+			b := int64(r.Intn(4)) << 1
 			fam := "digest-stream"
-			if r.Intn(6) == 0 {
-				b |= 1
+			if r.Intn(4) == 0 {
+				b |= 1 | int64(r.Intn(len(c15Errs)))<<3
 				fam = "digest-stream-reader-error"
+				t.C.Count("stream-reader-error", fmt.Sprint(c15Errs[b>>3]))
 			}
-			t.C.Count("stream-reader-style", []string{"chunks", "last-chunk-with-EOF", "one-byte-reads"}[b>>1])
+			t.C.Count("stream-reader-style", []string{"chunks", "last-chunk-with-EOF", "one-byte-reads", "last-chunk-with-EOF-or-error"}[(b>>1)&3])
 			t.Try(fam, c15Case(6, alg, b, Bytes(data), sizes), true)
 		case 3:
 			if r.Intn(2) == 0 {
@@ -729,7 +740,7 @@ func c15Describe(in []int64) string {
 	case 5:
 		return fmt.Sprintf("Hmac(key %q, data %q, hash #%d)", s1, s2, a)
 	case 6:
-		return fmt.Sprintf("stream digest #%d of %q, chunk sizes %v, reader style %d, reader error %v", a, s1, l2, b>>1, b&1 != 0)
+		return fmt.Sprintf("stream digest #%d of %q, chunk sizes %v, reader style %d, reader error %v (%v)", a, s1, l2, (b>>1)&3, b&1 != 0, c15Errs[int(b>>3)%len(c15Errs)])
 	case 7:
 		return fmt.Sprintf("Base64Encode(%q, encoding #%d)", s1, a)
 	case 8:
@@ -743,7 +754,7 @@ func c15Describe(in []int64) string {
 }
 
 func init() {
-	Register(&Prop{ID: "C15", Num: 15, SpecMode: "equal", Gen: c15Gen, Impl: c15Impl, Oracle: c15Oracle, Shrink: c15Shrink, Describe: c15Describe,
+	Register(&Prop{ID: "C15", Pure: true, Num: 15, SpecMode: "equal", Gen: c15Gen, Impl: c15Impl, Oracle: c15Oracle, Shrink: c15Shrink, Describe: c15Describe,
 		Rule: "three-way: golib = extracted model = Go standard library (strconv.ParseUint value + error kind; encoding/hex prefix, error identity and error text; encoding/base64 and crypto/* through the oracle), each function called with the string and the []byte instantiation and the input compared afterwards. " +
 			"ParseUint: for every base 2..36 and bit size 0..64 the numerals of maxVal-1, maxVal, maxVal+1, cutoff*base-1, cutoff*base, 2^64-1, 2^64, (cutoff-1)*base(+base-1) with random case and leading zeros; every text of length <= 3 (4 thorough) over \"0179afz_xbo+-\" for bases 0,2,8,10,16,36; base-0 grammar stream (prefixes, underscores in every position); garbage and numerals with bases -1..37 and bit sizes -1..65. " +
 			"Hex: every text of length <= 3 (4 thorough) over \"09afAFgG/:`@\" for HexDecode and HexDecodeInPlace, random encodings with one bad character / odd length, random HexEncode. Digests (8), HMAC, stream digests (chunk plans, data+EOF, one-byte reads, failing reader), base64 (4 encodings, corrupted / truncated / newline / extra padding). IPv4: boundary and random addresses round trip, arbitrary dotted texts; thorough: all 2^32 addresses on the implementation. distinct = distinct case; non-trivial = non-empty input text"})
